@@ -1,4 +1,5 @@
 import MaddyVerif.Model.Queue
+import MaddyVerif.Model.QueueHop
 import Driver.Util
 namespace Driver.C01
 open MaddyVerif.Queue Driver
@@ -49,7 +50,107 @@ def showEv : Ev → Option String
   | .requeue _ => none
   | .removed => some "removed"
 
+/-! ### `C01 hop`: the queue on a real forwarding target against a misbehaving next hop -/
+section hop
+open MaddyVerif.QueueHop
+
+/-- action letter → what the client sees and whether the session is over -/
+def faultOf (c : Char) : Option Fault :=
+  match c with
+  | 't' => some ⟨.temp, false⟩      -- 4xx, session continues
+  | 'p' => some ⟨.perm, false⟩      -- 5xx, session continues
+  | 'x' => some ⟨.temp, false⟩      -- 552, handled as 452 (RFC 5321 4.5.3.1.10)
+  | 'c' => some ⟨.temp, true⟩       -- 421, then closed
+  | 'd' => some ⟨.unspec, true⟩     -- closed without an answer
+  | 'r' => some ⟨.unspec, true⟩     -- reset without an answer
+  | 's' => some ⟨.temp, true⟩       -- silence: the command times out
+  | _ => none
+
+def rejOf (c : Char) : Option (Option FCls) :=
+  match c with
+  | 'o' => some none | 't' => some (some .temp) | 'p' => some (some .perm) | _ => none
+
+def lookupOpt (rs : List Nat) (cs : List (Option FCls)) (r : Nat) : Option FCls :=
+  match (rs.zip cs).find? (fun p => p.1 == r) with
+  | some p => p.2
+  | none => none
+
+/-- `<digits><letter>` -/
+def numAct (s : String) : Option (Nat × Char) :=
+  match s.toList.reverse with
+  | c :: ds => if ds.isEmpty then none else (String.ofList ds.reverse).toNat?.map (·, c)
+  | [] => none
+
+def noFault : Fault := ⟨.temp, false⟩
+
+def parseScript (rs : List Nat) (s : String) : Option Script :=
+  match s.splitOn "/" with
+  | [ml, lim, rej, dat, st, drp, qt] => do
+    let (mn, ma) ← numAct ml
+    let (mailN, mailF) ← (if ma == 'o' then some (0, noFault) else (faultOf ma).map (mn, ·))
+    let (limit, limF) ← (if lim == "-o" then some (none, noFault) else do
+      let (k, a) ← numAct lim
+      if a == 'o' then some (none, noFault) else (faultOf a).map (some k, ·))
+    let rejs ← rej.toList.mapM rejOf
+    let sts ← st.toList.mapM rejOf
+    if rejs.length != rs.length || sts.length != rs.length then none else
+    let (dataCmd, dataEnd) ← (match dat.toList with
+      | ['o'] => some (none, none)
+      | ['T'] => some (some FCls.temp, none)
+      | ['P'] => some (some FCls.perm, none)
+      | [c] => (faultOf c).map (fun f => (none, some f))
+      | _ => none)
+    let drop ← (if drp == "-" then some none else drp.toNat?.map some)
+    let _ ← (if qt == "o" then some noFault else qt.toList.head? >>= faultOf)   -- teardown: no effect
+    pure { mailN := mailN, mailF := mailF, limit := limit, limF := limF, rej := lookupOpt rs rejs,
+           dataCmd := dataCmd, dataEnd := dataEnd, lmtpSt := lookupOpt rs sts, lmtpDrop := drop }
+  | _ => none
+
+def quiet : Script :=
+  { mailN := 0, mailF := noFault, limit := none, limF := noFault, rej := fun _ => none,
+    dataCmd := none, dataEnd := none, lmtpSt := fun _ => none, lmtpDrop := none }
+
+/-- next hop of a recipient form under target.remote: one MX per distinct domain string -/
+def domOfForm (c : Char) : Option Nat :=
+  match c with
+  | 'a' => some 0 | 'l' => some 0 | 'u' => some 1 | 'i' => some 2 | 'b' => some 3 | _ => none
+
+def lookupNat (rs : List Nat) (vs : List Nat) (r : Nat) : Nat :=
+  match (rs.zip vs).find? (fun p => p.1 == r) with
+  | some p => p.2
+  | none => 0
+
+def handleHop : List String → String
+  | [kind, mt, dsn, rcpts, forms, utf8, scripts] =>
+    match mt.toNat?, (rcpts.splitOn ",").mapM String.toNat?, forms.toList.mapM domOfForm with
+    | some maxTries, some rs, some ds =>
+      if ds.length != rs.length then "bad-op" else
+      match (scripts.splitOn ";").mapM (parseScript rs) with
+      | some ss =>
+        let tk? : Option TKind := match kind with
+          | "r" => some .remote | "s" => some .smtp | "l" => some .lmtp | _ => none
+        match tk? with
+        | none => "bad-op"
+        | some tk =>
+          let scriptAt : Nat → Script := fun i => (ss[i]?).getD quiet
+          let dom : Nat → Nat := if tk == .remote then lookupNat rs ds else fun _ => 0
+          let nd := if tk == .remote then 4 else 1
+          -- non-ASCII local part and no SMTPUTF8 at the next hop: refused locally
+          let locals := (rs.zip forms.toList).filter (fun p => p.2 == 'l' && utf8 != "1") |>.map (·.1)
+          let lr : Nat → Bool := fun r => locals.contains r
+          let res := runHop maxTries tk (dsn == "1") scriptAt lr dom nd (maxTries + 1) 0 ⟨rs, fun _ => 0⟩
+          let cs := ",".intercalate (rs.map (fun r => s!"{r}={res.2.count r}"))
+          let rp := ",".intercalate (rs.map (fun r => s!"{r}={reportCount r res.1}"))
+          let rm := if res.1.any (fun e => match e with | .removed => true | _ => false) then "removed" else "NOT-REMOVED"
+          s!"c:{cs} r:{rp} {rm}"
+      | none => "bad-op"
+    | _, _, _ => "bad-op"
+  | _ => "bad-op"
+
+end hop
+
 def handle : List String → String
+  | "hop" :: rest => handleHop rest
   | ["run", mt, kind, dsn, rcpts, plans] =>
     match mt.toNat?, (rcpts.splitOn ",").mapM String.toNat? with
     | some maxTries, some rs =>
